@@ -111,6 +111,24 @@ def run(ctx):
                     if abs(d['get_G']['v'] - (d['get_H']['v'] - T * d['get_S']['v'])) > 1e-10 * (1 + abs(d['get_H']['v']) + abs(T * d['get_S']['v'])):
                         ctx.violate(key + '|G', 'G != H - T*S for a group correlation', dict(job, T=T, unit=u), d['get_H']['v'] - T * d['get_S']['v'], d['get_G'])
     jobs.sort(key=lambda j: j['lib'])
+    # dimensional values asked before and after the correlation is changed by a merge: S(T,u) and G(T,u) follow the data
+    from props import c13
+    seqs = [c13.gen_seq(ctx) for _ in range(ctx.n(40, 300))]
+    nmerged = 0
+    for job_, r_ in zip(seqs, vlib.run_impl_sharded('thermo', seqs, timeout=900)):
+        for k_, st_ in enumerate(r_.get('steps', [])):
+            sd = st_.get('self_dim') or {}
+            if 'exc' in st_ or 'cur' not in sd:
+                continue
+            nmerged += 1
+            for nm in sd['cur']:
+                for T_, a_, b_ in zip(sd['T'], sd['cur'][nm], sd['fresh'][nm]):
+                    same_ = (a_.get('exc') == b_.get('exc')) if ('exc' in a_ or 'exc' in b_) else \
+                        (a_.get('v') is not None and b_.get('v') is not None and abs(a_['v'] - b_['v']) <= 1e-10 * (1 + abs(b_['v'])))
+                    if not same_:
+                        ctx.violate('dim-after-merge:%s' % nm, '%s asked again after the correlation was changed does not follow the new data' % nm,
+                                    dict(job_, step=k_, T=T_), b_, a_)
+                        break
     results = c01.run_by_lib(jobs)
     dimcases, elcases = [], []
     hist = {'decomposed': 0, 'not_decomposable': 0, 'unit_evals': 0, 'element_evals': 0}
